@@ -10,99 +10,271 @@ from vp.core import Check, Failure
 
 META = dict(
     level_text="Lean 4 theorems over the interpreter/merge models: injecting leaves every runtime record outside the "
-               "injected subtree untouched and registers exactly one new generator at the end of the interrupt map; "
-               "the clause about edits is refuted for the code as it is by a kernel-evaluated witness "
+               "injected subtree untouched and registers exactly one new generator at the end of the interrupt map "
+               "(inject_keeps_method_flags, inject_registers_once); RUNNING a snippet of Mark / Wait / UOD command lines "
+               "changes, in every sub-tick from any state, no record of a method line, no interrupt, macro, block tag, "
+               "base unit or other generator (neutral_snippet_subtick_frame, induction over the micro-steps; "
+               "inject_and_first_subtick_keep_method_flags); the generator registered for the injected wrapper starts "
+               "the injected body at most once in its life under every environment (injected_body_starts_at_most_once). "
+               "The clause about edits is refuted for the code as it is by a kernel-evaluated witness "
                "(C14_counterexample) and the as-is behaviour is characterised (a merge keeps only interrupts whose "
-               "line id exists in the new method). Tie: differential execution of inject + edit schedules on the real "
-               "MethodManager/PInterpreter vs the model. Oracle on the real engine: snippet effects exactly once, "
-               "method state untouched by the injection, injected commands finalized.",
-    level_note="Known finding: injected code is lost when the method is edited before it ran (its interrupt is looked up "
-               "in the new method). 'Exactly once' and 'only while not paused/held' are checked by the oracle on the "
-               "real engine, not proved. Trusted: Lean kernel, harness.",
-    technique="Lean 4 proof (frame theorem for inject, decided counterexample for the edit clause) + differential correspondence + engine oracle",
+               "line id exists in the new method); a second witness shows that an injected Block never ends "
+               "(C14_witness_injected_block_never_ends). Tie: differential execution of inject + edit schedules on the "
+               "real MethodManager/PInterpreter vs the model. Oracle on the real engine with Pause / Hold / Unpause / "
+               "Unhold around the injection, a second snippet, accepted and refused edits: snippet effects exactly once, "
+               "no step of the injected code in a tick that began Paused or Holding, inject_code leaves method state and "
+               "pause/hold state alone, the method's started/completed sets equal those of the same run without the "
+               "injection tick for tick, injected commands initialised once and finalized, a refused edit is no event.",
+    level_note="Known findings: injected code is lost when the method is edited before it ran (its interrupt is looked up "
+               "in the new method); an injected Block never ends (End block looks for locked blocks in the program "
+               "only). Oracle-only (the engine's pause/hold gate, the CommandManager and the run log are not in M3/M4): "
+               "'only while not paused or held', 'injection does not change pause/hold', 'command finalized', 'exactly "
+               "once' for the whole run (proved: at most one body start per registered generator; not proved: that no "
+               "second generator is ever registered for the wrapper and that no other generator reaches it), and "
+               "'method progress unchanged' beyond the per-sub-tick frame theorem (no two-run simulation). Methods of "
+               "the oracle cases are block-free so that the fixed horizon is no source of alarms. Trusted: Lean "
+               "kernel, harness.",
+    technique="Lean 4 proof (frame theorems for inject and for running neutral snippets, once-per-registration, decided "
+              "counterexamples) + differential correspondence + engine oracle with pause/hold schedules",
 )
 MODULE = "OPM.Properties.C14"
-REQUIRED = ["OPM.C14.inject_keeps_method_flags", "OPM.C14.inject_registers_once", "OPM.C14.C14_counterexample",
-            "OPM.C14.merge_keeps_only_known_interrupts"]
+REQUIRED = ["OPM.C14.inject_keeps_method_flags", "OPM.C14.inject_registers_once",
+            "OPM.C14.neutral_snippet_subtick_frame", "OPM.C14.inject_and_first_subtick_keep_method_flags",
+            "OPM.C14.injected_body_starts_at_most_once", "OPM.C14.C14_counterexample",
+            "OPM.C14.C14_witness_injected_block_never_ends", "OPM.C14.merge_keeps_only_known_interrupts"]
+STATS: Counter = Counter()     # input distribution seen by the oracle (copied into the evidence by run())
 
 
 def marks_of(snap) -> list[str]:
     return [x for x in str(snap["tags"].get("Mark") or "").split("; ") if x]
 
 
-def oracle(case) -> list[Failure]:
+SNIPPET_CMDS = ("CmdA", "CmdB", "CmdC")
+
+
+def snippet_marks(sn: str) -> list[str]:
+    return [ln.strip().split("Mark: ")[1] for ln in sn.splitlines() if "Mark: " in ln]
+
+
+def snippet_cmds(sn: str) -> list[str]:
+    return [ln.strip().split(" ")[-1] for ln in sn.splitlines() if ln.strip().split(" ")[-1] in SNIPPET_CMDS]
+
+
+def neutral(sn: str) -> bool:
+    """A snippet that has no business with the method's own progress: no Block / End block(s) (block lock, ends the
+    method's blocks), no Base (changes the unit of the method's thresholds), no Watch / Alarm / Macro (a scope of
+    its own on top of the method's), only Mark / Wait / UOD commands."""
+    heads = [ln.strip().split(":")[0].split(" ")[-1] if ":" in ln else ln.strip() for ln in sn.splitlines() if ln.strip()]
+    return all(h in ("Mark", "Wait") or h in SNIPPET_CMDS for h in heads)
+
+
+def drive(case, with_injection: bool = True, with_edit: bool = True):  # noqa: C901
+    """Runs the case on the real engine; returns the trace the oracle judges."""
     from harness.engine_run import EngineRun
-    fails: list[Failure] = []
     run = EngineRun(case["pcode"])
-    try:
-        snap = None
-        for _ in range(case["at"]):
-            snap = run.tick()
-        if snap is None or snap["tags"].get("System State") != "Running" or snap["tags"].get("Method Status") == "Error":
-            return []
+    tr: dict = {"ticks": [], "inject": None, "second": None, "edit": None, "injected_nodes": []}
+    controls = sorted([list(c) for c in case.get("controls", [])], key=lambda c: c[0])
+    at, after = case["at"], case["after"]
+    inj_nodes: list = []     # node objects of the injected subtrees (they are not part of the program)
+
+    def run_state():
+        e = run.engine
+        return (str(e.tags["System State"].get_value()), bool(e._runstate_paused), bool(e._runstate_holding))
+
+    def sig():
+        # steps of the interpreter through the injected code: `started` of every node, `completed` of the nodes the
+        # interpreter completes itself (a command node is completed by the command manager when the command is done,
+        # which may well happen during a hold)
+        return [(n.started, n.completed and "Command" not in type(n).__name__, n.failed) for n in inj_nodes]
+
+    def inject(sn: str):
+        interp = run.engine.interpreter
+        seen = {id(i.node) for i in interp.interrupts}
         mm = run.engine.method_manager
         st0 = mm.get_method_state()
-        n_init0 = Counter(e[1] for e in run.exec_log if e[0] == "init")
-        res = run.inject(case["snippet"])
+        rs0 = run_state()
+        err0 = run.engine.has_error_state()
+        res = run.inject(sn)
         st1 = run.engine.method_manager.get_method_state()
-        if res != "ok":
-            return []
-        if (st0.started_line_ids, st0.executed_line_ids, st0.failed_line_ids) != \
-                (st1.started_line_ids, st1.executed_line_ids, st1.failed_line_ids):
-            fails.append(Failure("injection-changed-method-state", case, "method state differs right after inject_code"))
-        edited = False
-        for k in range(case["after"]):
-            if case.get("second") and k == case["second"][0]:
-                run.inject(case["second"][1])
-            if case.get("edit") and k == case["edit"][0]:
+        for i in run.engine.interpreter.interrupts:
+            if id(i.node) not in seen and type(i.node).__name__ == "InjectedNode":
+                inj_nodes.append(i.node)
+                inj_nodes.extend(i.node.get_child_nodes(recursive=True))
+        return {"res": res, "run_state": (rs0, run_state()), "error": (err0, run.engine.has_error_state()),
+                "method_state": ((st0.started_line_ids, st0.executed_line_ids, st0.failed_line_ids),
+                                 (st1.started_line_ids, st1.executed_line_ids, st1.failed_line_ids))}
+    try:
+        for t in range(at + after):
+            while controls and controls[0][0] <= t:
+                run.user(controls.pop(0)[1])
+            k = t - at
+            if with_injection and k == 0:
+                tr["inject"] = inject(case["snippet"])
+                tr["n_init0"] = Counter(e[1] for e in run.exec_log if e[0] == "init")
+            if with_injection and case.get("second") and k == case["second"][0]:
+                tr["second"] = inject(case["second"][1])
+            if with_edit and case.get("edit") and k == case["edit"][0]:
                 cur = [(ln.id, ln.content) for ln in run.engine.method_manager._method.lines]
                 new = apply_edit_script(cur, case["edit"][1])
                 m = run.Mdl.Method(lines=[run.Mdl.MethodLine(id=i, content=c) for i, c in new], version=0)
-                edited = run.edit(m) == "ok"
+                before = (str(run.engine.tags["Method Status"].get_value()), run_state(), run.engine.has_error_state())
+                res = run.edit(m)
+                tr["edit"] = {"res": res, "tick": t, "before": before,
+                              "after": (str(run.engine.tags["Method Status"].get_value()), run_state(),
+                                        run.engine.has_error_state())}
+            gate = run_state()[0]          # System State as the tick begins
+            sig0 = sig()
+            n_exec0 = len(run.exec_log)
             snap = run.tick()
-        if snap["raw_tags"].get("Method Status") == "Error":
-            # a valid snippet must not put the run into the error state: compare with the run without the injection
-            ref = EngineRun(case["pcode"])
-            try:
-                rs = None
-                for _ in range(case["at"] + case["after"]):
-                    rs = ref.tick()
-                ref_err = rs["raw_tags"].get("Method Status") == "Error"
-            finally:
-                ref.close()
-            if not ref_err and not edited and case.get("valid_snippet", True):
-                fails.append(Failure("injection-caused-error", case,
-                                     "Method Status is Error after injecting a valid snippet; the same run without it is not"))
-            return fails
-        if snap["raw_tags"].get("System State") != "Running":
-            return fails
-        want_marks = [ln.strip().split("Mark: ")[1] for ln in case["snippet"].splitlines() if "Mark: " in ln]
-        if case.get("second"):
-            want_marks += [ln.strip().split("Mark: ")[1] for ln in case["second"][1].splitlines() if "Mark: " in ln]
-        got = Counter(marks_of(snap))
-        sfx = "-after-edit" if edited else ""
-        for m in want_marks:
-            if got[m] == 0:
-                fails.append(Failure("injected-code-did-not-run" + sfx, case, f"Mark {m!r} of the injected snippet never set"))
-            elif got[m] > 1:
-                fails.append(Failure("injected-code-ran-twice" + sfx, case, f"Mark {m!r} of the injected snippet set {got[m]} times"))
-        want_cmds = [ln.strip().split(" ")[-1] for ln in case["snippet"].splitlines() if ln.strip().split(" ")[-1] in ("CmdA", "CmdB", "CmdC")]
-        if want_cmds and not case.get("method_has_cmds"):
-            n_init = Counter(e[1] for e in run.exec_log if e[0] == "init")
-            n_final = Counter(e[1] for e in run.exec_log if e[0] == "final")
-            for c in set(want_cmds):
-                if n_init[c] - n_init0[c] < 1:
-                    fails.append(Failure("injected-command-did-not-run" + sfx, case, f"{c} of the snippet never initialised"))
-                if n_init[c] != n_final[c] or c in snap["instances"]:
-                    fails.append(Failure("injected-command-not-finalized" + sfx, case,
-                                         f"{c}: init {n_init[c]} / finalize {n_final[c]}, instances {snap['instances']}"))
-        return fails
+            tr["ticks"].append({
+                "gate": gate, "marks": marks_of(snap), "status": str(snap["raw_tags"].get("Method Status")),
+                "sys": str(snap["raw_tags"].get("System State")),
+                "started": sorted(n["id"] for n in snap["nodes"] if n["started"]),
+                "completed": sorted(n["id"] for n in snap["nodes"] if n["completed"]),
+                "inj_before": sig0, "inj_after": sig(),
+                "exec": run.exec_log[n_exec0:], "instances": list(snap["instances"]), "raised": snap["raised"]})
+        tr["exec_log"] = list(run.exec_log)
+        tr["inj_final"] = [(type(n).__name__, n.started, n.completed, n.failed) for n in inj_nodes]
+        return tr
     finally:
         run.close()
 
 
+def oracle(case) -> list[Failure]:  # noqa: C901
+    fails: list[Failure] = []
+    a = drive(case)
+    inj = a["inject"]
+    if inj is None or inj["res"] != "ok" or inj["error"][0]:
+        return []           # not injected (engine refused the snippet) or the run was already halted in error
+    ticks = a["ticks"]
+    edit = a["edit"]
+    STATS["oracle:injections"] += 1
+    STATS["oracle:snippet:" + "+".join(sorted({(ln.strip().split(":")[0].split(" ")[-1] if ":" in ln else
+                                                "cmd" if ln.strip() in SNIPPET_CMDS else ln.strip())
+                                               for ln in case["snippet"].splitlines() if ln.strip()}))] += 1
+    STATS["oracle:injected-while-" + inj["run_state"][0][0].lower()] += 1
+    if any(r["gate"] in ("Paused", "Holding") and not all(c for _, c, _ in r["inj_before"]) and r["inj_before"]
+           for r in ticks):
+        STATS["oracle:unfinished-injected-code-during-pause-or-hold"] += 1
+    if edit is not None:
+        STATS["oracle:edit-" + ("accepted" if edit["res"] == "ok" else "refused")] += 1
+        k = edit["tick"]
+        if k < len(ticks) and ticks[k]["inj_before"] and not all(c for _, c, _ in ticks[k]["inj_before"]):
+            STATS["oracle:edit-while-injected-code-unfinished"] += 1
+    accepted = edit is not None and edit["res"] == "ok"
+    refused = edit is not None and edit["res"] != "ok"
+    sfx = "-after-edit" if accepted else ""
+    want_marks = snippet_marks(case["snippet"]) + (snippet_marks(case["second"][1]) if a["second"] else [])
+    want_cmds = snippet_cmds(case["snippet"]) if not case.get("method_has_cmds") else []
+
+    # (1) the act of injecting: method state and pause/hold state are what they were
+    for which in ("inject", "second"):
+        i = a[which]
+        if i is None or i["res"] != "ok":
+            continue
+        if i["method_state"][0] != i["method_state"][1]:
+            fails.append(Failure("injection-changed-method-state", case, "method state differs right after inject_code"))
+        if i["run_state"][0] != i["run_state"][1]:
+            fails.append(Failure("injection-changed-run-state", case,
+                                 f"(System State, paused, holding) {i['run_state'][0]} -> {i['run_state'][1]} by inject_code"))
+
+    # (2) only while not paused or held: in a tick that began Paused / Holding the injected code makes no step
+    for t, r in enumerate(ticks):
+        if r["gate"] in ("Paused", "Holding"):
+            new_marks = [m for m in want_marks if r["marks"].count(m) > (ticks[t - 1]["marks"].count(m) if t else 0)]
+            new_inits = [e for e in r["exec"] if e[0] == "init" and e[1] in want_cmds]
+            if r["inj_before"] != r["inj_after"][:len(r["inj_before"])] or new_marks or new_inits:
+                fails.append(Failure("injected-code-progressed-while-" + r["gate"].lower(), case,
+                                     f"tick {t} began with System State {r['gate']}; injected nodes "
+                                     f"{r['inj_before']} -> {r['inj_after']}, marks {new_marks}, inits {new_inits}"))
+                break
+
+    # (3) a refused edit is no event at all: engine state untouched, and the run equals the run without it
+    if refused:
+        if edit["before"] != edit["after"]:
+            fails.append(Failure("refused-edit-changed-engine-state", case,
+                                 f"refused edit at tick {edit['tick']}: (Method Status, run state, error) "
+                                 f"{edit['before']} -> {edit['after']}"))
+        b = drive(case, with_edit=False)
+        proj = lambda tr: [(r["marks"], r["status"], r["sys"], r["inj_after"], r["exec"]) for r in tr["ticks"]]  # noqa: E731
+        if proj(a) != proj(b):
+            k = next(i for i, (x, y) in enumerate(zip(proj(a), proj(b))) if x != y)
+            fails.append(Failure("refused-edit-affected-injected-code", case,
+                                 f"from tick {k} on the run differs from the same run without the refused edit: "
+                                 f"{proj(a)[k]} vs {proj(b)[k]}"))
+
+    # reference: the same run (method, pause/hold schedule, edit) without any injection
+    ref = drive(case, with_injection=False)
+    last, rlast = ticks[-1], ref["ticks"][-1]
+    ended_ok = last["sys"] == "Running" and last["status"] != "Error"
+    ref_ok = rlast["sys"] == "Running" and rlast["status"] != "Error"
+    if not ended_ok:
+        if ref_ok and not accepted and not refused and case.get("valid_snippet", True) and last["status"] == "Error":
+            fails.append(Failure("injection-caused-error", case,
+                                 "Method Status is Error after injecting a valid snippet; the same run without it is not"))
+        return fails
+
+    # (4) exactly once
+    got = Counter(last["marks"])
+    for m in want_marks:
+        if got[m] == 0:
+            fails.append(Failure("injected-code-did-not-run" + sfx, case, f"Mark {m!r} of the injected snippet never set"))
+        elif got[m] > 1:
+            fails.append(Failure("injected-code-ran-twice" + sfx, case, f"Mark {m!r} of the injected snippet set {got[m]} times"))
+    # the InjectedNode wrapper completes when the interpreter has been through the whole snippet (a Watch / Alarm in
+    # the snippet lives on as an interrupt of its own, a command is completed later by the command manager)
+    wrappers = [x for x in a["inj_final"] if x[0] == "InjectedNode"]
+    if any(not x[2] for x in wrappers) and not accepted and not any(x[3] for x in a["inj_final"]):
+        open_blocks = any(x[0] == "BlockNode" and x[1] and not x[2] for x in a["inj_final"])
+        fails.append(Failure("injected-code-did-not-complete" + (":block-never-ends" if open_blocks else ""), case,
+                             f"the interpreter never got to the end of the injected code: {a['inj_final']}"))
+
+    # (5) an injected UOD command is started once, completes and is finalized
+    if want_cmds:
+        n_init = Counter(e[1] for e in a["exec_log"] if e[0] == "init")
+        n_final = Counter(e[1] for e in a["exec_log"] if e[0] == "final")
+        for c in set(want_cmds):
+            started = n_init[c] - a["n_init0"][c]
+            if started < 1:
+                fails.append(Failure("injected-command-did-not-run" + sfx, case, f"{c} of the snippet never initialised"))
+            elif started > want_cmds.count(c):
+                fails.append(Failure("injected-command-ran-twice" + sfx, case,
+                                     f"{c} of the snippet initialised {started} times"))
+            if n_init[c] != n_final[c] or c in last["instances"]:
+                fails.append(Failure("injected-command-not-finalized" + sfx, case,
+                                     f"{c}: init {n_init[c]} / finalize {n_final[c]}, instances {last['instances']}"))
+
+    # (6) the method's own progress, tick for tick, is that of the run without the injection
+    if ref_ok and neutral(case["snippet"]) and (not a["second"] or neutral(case["second"][1])) and \
+            not (snippet_cmds(case["snippet"]) and case.get("method_has_cmds")):
+        STATS["oracle:method-progress-compared"] += 1
+        for t, (r, q) in enumerate(zip(ticks, ref["ticks"])):
+            if (r["started"], r["completed"]) != (q["started"], q["completed"]):
+                d = sorted(set(r["started"]) ^ set(q["started"]) | set(r["completed"]) ^ set(q["completed"]))
+                fails.append(Failure("injection-changed-method-progress" + sfx, case,
+                                     f"tick {t}: started/completed method lines differ from the run without the "
+                                     f"injection at line ids {d}"))
+                break
+    return fails
+
+
 WITNESS = {"pcode": "Wait: 3s\nMark: b", "at": 6, "snippet": "Wait: 1s\nMark: inj", "after": 60,
            "edit": [2, [["append", "Mark: c"]]], "method_has_cmds": False}
+
+
+def resume(controls: list, at_least: int) -> list:
+    """Appends the Unpause / Unhold that bring the schedule back to Running (not before tick `at_least`)."""
+    paused = held = False
+    for _, c in sorted(controls, key=lambda x: x[0]):
+        paused = True if c == "Pause" else False if c == "Unpause" else paused
+        held = True if c == "Hold" else False if c == "Unhold" else held
+    t = max([at_least] + [x[0] + 1 for x in controls])
+    out = list(controls)
+    if paused:
+        out.append([t, "Unpause"])
+    if held:
+        out.append([t + 1, "Unhold"])
+    return out
 
 
 def template_cases() -> list[dict]:
@@ -118,6 +290,21 @@ def template_cases() -> list[dict]:
                 for gap in (0, 1, 3):
                     out.append({"pcode": m, "at": at, "snippet": sn, "after": 70, "method_has_cmds": False,
                                 "second": [gap, "Mark: i2"]})
+    # injection around a pause / a hold: before, while, just after
+    for m in methods:
+        for sn in ("Mark: i1", "Wait: 1s\nMark: i1", "CmdB\nMark: i1", "CmdC"):
+            for stop, go in (("Pause", "Unpause"), ("Hold", "Unhold")):
+                for at in (8, 10, 12, 16, 22):          # stop requested before tick 10, resumed before tick 20
+                    out.append({"pcode": m, "at": at, "snippet": sn, "after": 80, "method_has_cmds": False,
+                                "controls": [[10, stop], [20, go]]})
+                out.append({"pcode": m, "at": 14, "snippet": sn, "after": 80, "method_has_cmds": False,
+                            "controls": [[10, "Pause"], [12, "Hold"], [20, "Unpause"], [26, "Unhold"]]})
+    # an edit that is refused (it rewrites the executed first line) at every tick of the injected code's life
+    for m in methods:
+        for sn in ("CmdC\nMark: i1", "Wait: 1s\nMark: i1", "CmdB"):
+            for gap in range(0, 12):
+                out.append({"pcode": m, "at": 8, "snippet": sn, "after": 70, "method_has_cmds": False,
+                            "edit": [gap, [["change", 0.01, "    Mark: rewritten" if m.startswith("Block") else "Mark: rewritten"]]]})
     return out
 
 
@@ -132,8 +319,23 @@ def gen_cases(ctx: Check, n: int) -> list[dict]:
         if "Block" in snippet and "End block" not in snippet:
             snippet += "\n    End block"
         c = {"pcode": pcode, "at": rng.randrange(3, 25), "snippet": snippet, "after": 110, "method_has_cmds": has_cmds}
-        if rng.random() < 0.3:
+        x = rng.random()
+        if x < 0.25:
             c["edit"] = [rng.randrange(0, 6), [["append", "Mark: zz"]]]
+        elif x < 0.4:
+            c["edit"] = [rng.randrange(0, 8), [["change", 0.01, "Mark: rewritten"]]]     # refused if line 1 has started
+        if rng.random() < 0.5:
+            # a pause and/or a hold somewhere around the injection; the schedule always returns to Running
+            ctl = []
+            t = max(1, c["at"] + rng.randrange(-6, 6))
+            for _ in range(rng.choice([1, 1, 2])):
+                stop, go = rng.choice([("Pause", "Unpause"), ("Hold", "Unhold")])
+                ctl.append([t, stop])
+                t += rng.randrange(1, 12)
+                if rng.random() < 0.8:
+                    ctl.append([t, go])
+                t += rng.randrange(0, 6)
+            c["controls"] = resume(ctl, t)
         out.append(c)
     return out
 
@@ -142,29 +344,41 @@ def run(ctx: Check) -> int:
     ctx.prove(MODULE, REQUIRED)
     ctx.rule = ("M3/M4 stream: generated methods x schedules with an injected snippet (Mark / Wait / UOD command / Block) "
                 "at a random op position and optional live edits; oracle: snippets injected at a random tick of runs on "
-                "the real engine, optionally followed by an edit 0-5 ticks later.")
+                "the real engine (block-free methods), half of them with a Pause/Hold ... Unpause/Unhold schedule around "
+                "the injection, 25% followed by an appending edit and 15% by an edit that rewrites line 1 (refused once "
+                "it has started) 0-7 ticks later; templates: injection before / during / after a pause and a hold, a "
+                "second snippet, a refused edit at every tick of the injected code's life.")
     rng = ctx.rng
     extra = []
     for _ in range(ctx.n(100, 2000)):
         pcode, _ = gen_program(rng, max_lines=10)
         ops = gen_schedule(rng, rng.randrange(12, 40))
         k = rng.randrange(1, len(ops))
-        ops.insert(k, ["inject", gen_snippet(rng)])
+        sn = gen_snippet(rng)
+        ops.insert(k, ["inject", sn])
+        ctx.count("stream:snippet:" + sn.strip().split(":")[0].split(" ")[-1].split("\n")[0])
         if rng.random() < 0.4:
             ops.insert(rng.randrange(k, len(ops)), ["edit", gen_edit_script(rng)])
+            ctx.count("stream:with-edit-after-injection")
         extra.append({"pcode": pcode, "ops": ops})
     m3_stream(ctx, "inject-m3m4", 0, extra_cases=extra)
+    STATS.clear()
     ctx.monitor(gen_cases(ctx, ctx.n(40, 600)), oracle, impl_timeout=120)
+    for k, v in sorted(STATS.items()):
+        ctx.count(k, v)
     return ctx.finish(search=lambda c: c.monitor(gen_cases(c, c.n(100, 600)), oracle, impl_timeout=120))
 
 
 def replay(obj) -> int:
+    """Re-runs the oracle on the case of a replay file; exit 1 iff a failure that is not a recorded finding shows."""
+    from vp.core import load_known
     c = obj.get("case", {})
     if "snippet" in c:
+        known = {k["key"] for k in load_known("C14")}
         fs = oracle(c)
         print(c)
         for f in fs:
-            print("oracle:", f.key, f.detail)
-        return 1 if fs else 0
+            print("oracle:" if f.key not in known else "oracle (recorded finding):", f.key, f.detail)
+        return 1 if any(f.key not in known for f in fs) else 0
     print(obj)
     return 0
